@@ -263,6 +263,7 @@ func famConc(dir string, seed int64, tier string) {
 	}
 	runtime.GOMAXPROCS(runtime.NumCPU())
 	apiLateRegistration(rep, "C19")
+	apiTreeEditsStayPrivate(rep, "C19")
 	apiRegistrationRace(rep, 5000) // (the race detector slows the window down: the long replay runs in the plain build, family concplain)
 	rep.write(dir)
 }
